@@ -117,6 +117,11 @@ Res run_scn(Scn const& sc)
 					auto t1 = std::make_shared<asio::high_resolution_timer>(nC); auto t2b = std::make_shared<asio::high_resolution_timer>(nC);
 					t1->expires_after(ms(30)); t1->async_wait([&, t1, d2, rport](error_code const&) { error_code e3; cudp.send_to(asio::buffer(*d2), ip::udp::endpoint(addr("10.0.2.1"), (unsigned short)rport), 0, e3); });
 					t2b->expires_after(ms(60)); t2b->async_wait([&, t2b, d3, rport](error_code const&) { error_code e3; cudp.send_to(asio::buffer(*d3), ip::udp::endpoint(addr("10.0.2.1"), (unsigned short)rport), 0, e3); }); }
+				if (sc.udp_case == 5) { // two more datagrams to the same (not yet resolved) name right away and 2 ms later: the relay must keep each payload apart
+					std::string nm4 = name_of_len(4);
+					for (int j = 0; j < 2; ++j) { auto d = std::make_shared<bytes>(B({ 0, 0, 0, 3, 4 }) + nm4 + B({ 9500 >> 8, 9500 & 0xff }) + (j == 0 ? "burst-second-longer-payload" : "b3"));
+						if (j == 0) { error_code e3; cudp.send_to(asio::buffer(*d), ip::udp::endpoint(addr("10.0.2.1"), (unsigned short)rport), 0, e3); }
+						else { auto t1 = std::make_shared<asio::high_resolution_timer>(nC); t1->expires_after(ms(2)); t1->async_wait([&, t1, d, rport](error_code const&) { error_code e3; cudp.send_to(asio::buffer(*d), ip::udp::endpoint(addr("10.0.2.1"), (unsigned short)rport), 0, e3); }); } } }
 				if (sc.udp_case == 2) { bytes un = "unsolicited"; uudp.send_to(asio::buffer(un), ip::udp::endpoint(addr("10.0.2.1"), (unsigned short)rport), 0, e2); }
 			}
 			start_relay();
@@ -164,6 +169,10 @@ Res run_scn(Scn const& sc)
 					if (bind_got != c2t) fail(fmt("relay: (BIND) the peer received %zu of %zu bytes from the client", bind_got.size(), c2t.size())); }
 			} else if (n.cmd == UDPA && sc.udp_case >= 0) {
 				// valid datagram cases: 0 by address, 1 by name, 2 by address + a third party writes to the relay
+				if (sc.udp_case == 5) {
+					std::multiset<bytes> got(tudp_got.begin(), tudp_got.end()), want{ "ping-payload", "burst-second-longer-payload", "b3" };
+					if (got != want) { std::string all; for (auto& d : tudp_got) all += d + "|"; fail("udp_forward: three datagrams were sent to one host name while its first lookup was still running; the target received: " + jesc(all)); }
+				}
 				if (sc.udp_case == 4) {
 					std::string all; for (auto& d : tudp_got) all += d + "|";
 					if (all != "ping-payload|second|third|") fail("udp_forward: three datagrams were sent through the relay (by name, by the same name again, by address); the target received: " + jesc(all));
@@ -248,6 +257,7 @@ struct SocksEngine : Engine
 				{ Scn s; s.neg = n; s.udp_case = 1; s.udp_dgram = good3; s.label = "datagram by name"; one(ctx, u, s, "udp"); }
 				{ Scn s; s.neg = n; s.udp_case = 2; s.udp_dgram = good4; s.label = "datagram by address + third party"; one(ctx, u, s, "udp"); }
 				{ Scn s; s.neg = n; s.udp_case = 4; s.udp_dgram = good3; s.label = "by name, same name again, by address"; one(ctx, u, s, "udp"); }
+				{ Scn s; s.neg = n; s.udp_case = 5; s.udp_dgram = good3; s.label = "burst of three by name during the first lookup"; one(ctx, u, s, "udp"); }
 				for (bytes const* g : { &good4, &good3 }) {
 					for (size_t l = 0; l < g->size(); ++l) { Scn s; s.neg = n; s.udp_case = 3; s.udp_dgram = g->substr(0, l); s.label = fmt("datagram truncated to %zu bytes", l); one(ctx, u, s, "udp-malformed"); }
 					for (size_t i = 0; i < 12 && i < g->size(); ++i) for (int b : subst) { if (char(b) == (*g)[i]) continue; Scn s; s.neg = n; s.udp_case = 3; s.udp_dgram = *g; s.udp_dgram[i] = char(b); s.label = fmt("datagram byte %zu := %02x", i, b); one(ctx, u, s, "udp-malformed"); }
